@@ -1117,4 +1117,71 @@ theorem hex_to_uint_either_case (up : Bool) (a32 : BitVec 32) (a64 : BitVec 64) 
   · have := hexToUint_case up 8 (by decide) a64 rest
     rwa [key 8 a64] at this
 
+
+/-! ## K. debug_print_dump and igris/util/ctype.h -/
+
+/-- debug_print_dump(mem, len) emits exactly `dumpSpec` (Spec.lean: rows of eight, address column
+    `0x` + 16 upper-case hex digits + `:`, cells `HH `, three blanks past the data, the ASCII
+    column — the byte itself iff it is printable 0x20..0x7E, else `.` — and CR LF), and it reads
+    exactly `mem[0 .. len)`: with fewer bytes in the object it reads outside it.
+    (The unrepaired routine tested `isprint(mem[0] + j)`: fix 7b9c1c0.) -/
+theorem print_dump_spec (addr : BitVec 64) (mem : List Byte) (len : BitVec 16) :
+    printDump addr mem len
+      = if len.toNat ≤ mem.length then some (dumpSpec addr.toNat (mem.take len.toNat)) else none := by
+  simp only [printDump, dump_total]
+  by_cases h : len.toNat ≤ mem.length
+  · rw [if_pos h, dumpLoop_spec addr mem len.toNat h]
+    simp only [Option.map_some, emit_nil_reverse, dumpSpec, List.length_take, Nat.min_eq_left h]
+  · rw [if_neg h]
+    rw [dumpLoop_fault addr mem len.toNat (by omega) _ 0 [] (by omega) (by omega)]
+    rfl
+
+-- one full row and a partial one: 9 bytes "AB\n…"
+example : (printDump 0x1000#64 [0x41#8, 0x42#8, 0x0A#8, 0xFF#8, 0x20#8, 0x7E#8, 0x7F#8, 0x30#8, 0x31#8] 9#16).map List.length
+    = some 106 := by decide
+
+/-- igris ctype.h against the digit alphabets: `igris_isxdigit` is "digit of base 16",
+    `igris_isalnum` is "digit of base 36", `igris_isdigit` "digit of base 10";
+    `igris_toupper` / `igris_tolower` never change the digit value (letters of either case);
+    `igris_isprint` is 0x20..0x7E; a negative `char` (byte ≥ 0x80) is in no class -/
+theorem ctype_matches_digit_alphabets (c : Byte) :
+    (isxdigitI c.toInt = true ↔ digitValue c < 16) ∧
+    (isalnumI c.toInt = true ↔ digitValue c < 36) ∧
+    (isdigitI c.toInt = true ↔ digitValue c < 10) ∧
+    digitValue (BitVec.ofInt 8 (toupperI c.toInt)) = digitValue c ∧
+    digitValue (BitVec.ofInt 8 (tolowerI c.toInt)) = digitValue c ∧
+    (isprintI c.toInt = true ↔ 32 ≤ c.toNat ∧ c.toNat ≤ 126) ∧
+    (128 ≤ c.toNat → isalnumI c.toInt = false ∧ isspaceI c.toInt = false ∧ isprintI c.toInt = false) := by
+  revert c; decide
+
+
+/-! ## L. the `_partial` theorem of section G made exact -/
+
+/-- the excluded region of `atolOrig_ltoa_inverse_partial` is exactly `{LONG_MIN}`, and inside it
+    the behaviour is: signed overflow at the last digit, whatever follows the text — for the
+    UNREPAIRED atol the round trip holds iff `v ≠ LONG_MIN` (the repaired one: `atol_ltoa_inverse`,
+    `atol_grammar`) -/
+theorem atolOrig_ltoa_inverse_iff (v : BitVec 64) (tail : List Byte) :
+    atolOrig (canonInt false 10 v.toInt ++ 0#8 :: tail) = some v ↔ v ≠ BitVec.ofInt 64 (-9223372036854775808) := by
+  constructor
+  · intro h hv
+    subst hv
+    have ht : (BitVec.ofInt 64 (-9223372036854775808)).toInt = -9223372036854775808 := by decide
+    have hc : canonInt false 10 (-9223372036854775808)
+        = [0x2D#8, 0x39#8, 0x32#8, 0x32#8, 0x33#8, 0x33#8, 0x37#8, 0x32#8, 0x30#8, 0x33#8, 0x36#8, 0x38#8,
+           0x35#8, 0x34#8, 0x37#8, 0x37#8, 0x35#8, 0x38#8, 0x30#8, 0x38#8] := by
+      have hd : digits 10 9223372036854775808 = [9, 2, 2, 3, 3, 7, 2, 0, 3, 6, 8, 5, 4, 7, 7, 5, 8, 0, 8] := by
+        have := digits_unique 10 (by omega) [9, 2, 2, 3, 3, 7, 2, 0, 3, 6, 8, 5, 4, 7, 7, 5, 8, 0, 8] (by simp)
+          (by decide) (Or.inr (by decide))
+        rw [← this]; rfl
+      simp only [canonInt, canonNat]
+      rw [show (-9223372036854775808 : Int).natAbs = 9223372036854775808 by decide, hd]
+      decide
+    rw [ht, hc] at h
+    have hnone : atolOrig ([0x2D#8, 0x39#8, 0x32#8, 0x32#8, 0x33#8, 0x33#8, 0x37#8, 0x32#8, 0x30#8, 0x33#8, 0x36#8, 0x38#8,
+           0x35#8, 0x34#8, 0x37#8, 0x37#8, 0x35#8, 0x38#8, 0x30#8, 0x38#8] ++ 0#8 :: tail) = none := by rfl
+    rw [hnone] at h
+    exact absurd h (by simp)
+  · intro hv; exact atolOrig_ltoa_inverse_partial v hv tail
+
 end Igris.C07
